@@ -321,8 +321,10 @@ func checkEffects(p *Program, r *Report, f *FuncFacts, sp *guardSpec, sfn string
 			if i := strings.Index(h, " when "); i >= 0 {
 				h = h[:i]
 			}
-			if i := strings.IndexAny(h, "(="); i >= 0 {
-				h = strings.TrimSpace(h[:i])
+			if i := strings.Index(h, " <- ("); i >= 0 {
+				h = h[:i]
+			} else if i := strings.Index(h, " = "); i >= 0 {
+				h = h[:i]
 			}
 			heads[h] = true
 		}
